@@ -322,3 +322,84 @@ LATE_TEARDOWN_FAILURE_WITH_FILE_BACKENDS = dict(_case(
     _p([_s("s0", [_t("t0", [], [_LOG]), _t("t1", [], [_LOG], rank=2)], teardown_suite=[_ERR])]), _cfg(2)),
     files={"backends": ["json", "junit"], "saving": "at_each_log"})
 FILE_BACKEND_CONTROLS = [LATE_FAILURE_WITH_FILE_BACKENDS, LATE_TEARDOWN_FAILURE_WITH_FILE_BACKENDS]
+
+
+# ---- several runs of ONE built project in one process (props/_multirun.py; acts guarded with `only_in_run`) -----------------
+def _only(act, r):
+    return dict(act, only_in_run=r)
+
+
+def _again(project, runs=2, n=1, **kw):
+    return dict({"project": dict(project, nb_threads=n), "strategy": "off", "gseed": 1, "interrupt": None, "fault": None,
+                 "runs": runs, "event_run": 1}, **kw)
+
+
+# the environment is down during the first run only: the second test of s0 raises AbortSuite in run 1; in run 2 nothing aborts
+AGAIN_ABORT_SUITE_THEN_CLEAN = _again(_p([
+    _s("s0", [_t("t0", script=[_LOG]), _t("t1", script=[_only({"a": "raise", "kind": "AbortSuite"}, 1)], rank=2), _t("t2", script=[_LOG], rank=3)]),
+    _s("s1", [_t("t3", script=[_LOG])], rank=2)]))
+# AbortAllTests in a setup_suite hook of the first of three runs, a failing check in the second, nothing in the third
+AGAIN_ABORT_ALL_THEN_FAILURE_THEN_CLEAN = _again(_p([
+    _s("s0", [_t("t0", script=[_LOG]), _t("t1", script=[_only({"a": "check", "ok": False}, 2)], rank=2)],
+       setup_suite={"params": [], "script": [_only({"a": "raise", "kind": "AbortAllTests"}, 1)]}, teardown_suite=[_LOG]),
+    _s("s1", [_t("t2", script=[_LOG])], rank=2)]), runs=3, n=2)
+# the abort comes in the SECOND run (from an lcc.Thread of a test with a test-scoped fixture), the first and third are clean
+AGAIN_CLEAN_ABORT_CLEAN = _again(_p([
+    _s("s0", [_t("t0", ["f0"], [{"a": "thread", "script": [_only({"a": "raise", "kind": "AbortSuite", "sub": True}, 2)]}, _LOG]),
+              _t("t1", script=[_LOG], rank=2)], suites=[_s("sub", [_t("u", script=[_LOG])])])],
+    [_f("f0", "test", [_LOG])]), runs=3)
+# interrupted first run, ordinary second run
+AGAIN_INTERRUPT_THEN_CLEAN = _again(_p([_s("s0", [_t("t0", script=[_LOG]), _t("t1", script=[_LOG], rank=2), _t("t2", script=[_LOG], rank=3)])]),
+                                    interrupt=["get", 2])
+AGAIN_CORPUS = [AGAIN_ABORT_SUITE_THEN_CLEAN, AGAIN_ABORT_ALL_THEN_FAILURE_THEN_CLEAN, AGAIN_CLEAN_ABORT_CLEAN, AGAIN_INTERRUPT_THEN_CLEAN]
+
+
+# ---- an exception raised while an attachment is being prepared, BEFORE the attachment file exists ---------------------------
+def _c1(project, n=1):
+    return _case(project, _cfg(n))
+
+
+def _blk_late(*script):
+    return {"a": "attachw", "write": "late", "script": list(script)}
+
+
+_SAVE_MISSING = {"a": "attachw", "via": "save_file", "script": [{"a": "raise", "kind": "exc"}]}
+_EXC = {"a": "raise", "kind": "exc"}
+# the content producer of a `with lcc.prepare_attachment(..)` block raises before the file is written: test body, then a log
+UNWRITTEN_BLOCK_RAISES_IN_BODY = _c1(_p([_s("s0", [_t("t0", script=[_LOG, _blk_late(_LOG, _EXC), _LOG]), _t("t1", script=[_LOG], rank=2)])]))
+# lcc.save_attachment_file on a source file that does not exist: test body / setup_suite hook / teardown_test hook / fixture / lcc.Thread
+SAVE_MISSING_IN_BODY = _c1(_p([_s("s0", [_t("t0", script=[_LOG, dict(_SAVE_MISSING), _LOG]), _t("t1", script=[_LOG], rank=2)])]))
+SAVE_MISSING_IN_SETUP_SUITE = _c1(_p([_s("s0", [_t("t0", script=[_LOG])], setup_suite={"params": [], "script": [dict(_SAVE_MISSING), _LOG]},
+                                            teardown_suite=[_blk_late(_EXC)])]))
+SAVE_MISSING_IN_TEST_HOOKS_AND_FIXTURE = _c1(_p([_s("s0", [_t("t0", ["f0"], [_LOG]), _t("t1", script=[_LOG], rank=2)],
+                                                      teardown_test=[dict(_SAVE_MISSING)])],
+                                                  [_f("f0", "test", [_blk_late(_EXC), _LOG], teardown=[_LOG])]), n=2)
+UNWRITTEN_BLOCK_RAISES_IN_THREAD = _c1(_p([_s("s0", [_t("t0", script=[{"a": "thread", "script": [_LOG, _blk_late(_EXC), _LOG]}, _LOG]),
+                                                      _t("t1", script=[{"a": "thread", "script": [dict(_SAVE_MISSING)]}], rank=2)])]))
+# Abort* classes leaving an unwritten block
+UNWRITTEN_BLOCK_ABORTS = _c1(_p([_s("s0", [_t("t0", script=[_blk_late({"a": "raise", "kind": "AbortTest"}), _LOG]),
+                                            _t("t1", script=[_blk_late(_blk_late({"a": "raise", "kind": "AbortSuite"}))], rank=2),
+                                            _t("t2", script=[_LOG], rank=3)])]))
+UNWRITTEN_ATTACHMENTS = [UNWRITTEN_BLOCK_RAISES_IN_BODY, SAVE_MISSING_IN_BODY, SAVE_MISSING_IN_SETUP_SUITE, SAVE_MISSING_IN_TEST_HOOKS_AND_FIXTURE,
+                         UNWRITTEN_BLOCK_RAISES_IN_THREAD, UNWRITTEN_BLOCK_ABORTS]
+
+
+# ---- suites with a setup phase whose OWN tests are all disabled, under --force-disabled (they do run, and need that setup) ------
+_SETUP = {"params": [], "script": [_LOG]}
+# a NESTED suite with setup_suite / teardown_suite hooks, each of its tests disabled; a test of another suite depends on one of them
+FORCED_NESTED_ALL_DISABLED = _c1(_p([
+    _s("s0", [_t("t0", script=[_LOG])],
+       suites=[_s("sub", [_t("u0", script=[_LOG], disabled=True), _t("u1", script=[_LOG], rank=2, disabled="not ready")],
+                  setup_suite=dict(_SETUP), teardown_suite=[_LOG])]),
+    _s("s1", [_t("t1", script=[_LOG], deps=[["s0", "sub", "u0"]])], rank=2)], force=True), n=2)
+# the nested suite itself is disabled (two levels down), its setup comes from a suite-scoped fixture
+FORCED_NESTED_DISABLED_SUITE = _c1(_p([
+    _s("s0", [_t("t0", script=[_LOG])],
+       suites=[_s("mid", [], suites=[dict(_s("deep", [_t("v0", ["f0"], [_LOG]), _t("v1", script=[_LOG], rank=2)], setup_suite=dict(_SETUP)),
+                                          disabled=True)])])],
+    [_f("f0", "suite", [_LOG], teardown=[_LOG])], force=True))
+# the same without the option: nothing of the suite runs, no setup either
+NESTED_ALL_DISABLED_NOT_FORCED = _c1(_p([
+    _s("s0", [_t("t0", script=[_LOG])],
+       suites=[_s("sub", [_t("u0", script=[_LOG], disabled=True)], setup_suite=dict(_SETUP), teardown_suite=[_LOG])])]))
+ALL_DISABLED_SUITES = [FORCED_NESTED_ALL_DISABLED, FORCED_NESTED_DISABLED_SUITE, NESTED_ALL_DISABLED_NOT_FORCED]
